@@ -121,16 +121,15 @@ pub fn run_real(w: &Arc<Workload>, spec: &SchedSpec, keep_events: bool) -> RealR
         max_in_flight: out.stats.max_in_flight,
     };
     let verdict = match out.result {
+        // a VM seen outside its bounds counts however the execution ended afterwards (one that
+        // outgrows a bound typically also outruns a budget)
+        Ok(_) | Err(SimFailure::ItemBudget) if hs.bound_violation.is_some() => {
+            Err(finding("vm-bound", hs.bound_violation.clone().unwrap_or_default()))
+        }
         // the simulated device gave up (call budget): whatever came back is an artefact of the
         // simulator's own limit, not of the code — inconclusive, like the other budgets
         Ok(_) if faults.budget > 0 => Err(finding("budget", "device call budget exhausted")),
-        Ok(v) => {
-            if let Some(b) = hs.bound_violation {
-                Err(finding("vm-bound", b))
-            } else {
-                Ok(v)
-            }
-        }
+        Ok(v) => Ok(v),
         Err(SimFailure::Panic(p)) => {
             if p.location.starts_with("/verif/") || p.location.contains("/verif/sim/") {
                 Err(finding(
